@@ -8,10 +8,12 @@ VARIABLES l, bad
 tvars == <<vars, l, bad>>
 Ev == TraceLog[l]
 DestC == <<"r", "d">>
-ChildOfDest(p) == Len(p) = Len(DestC) + 1 /\ SubSeq(p, 1, Len(DestC)) = DestC
+\* (an event may name its own destination - a long path, a name ending in a blank; the default is r/d)
+DestOf(ev) == IF "dest" \in DOMAIN ev THEN ev.dest ELSE DestC
+ChildOf(dst, p) == Len(p) = Len(dst) + 1 /\ SubSeq(p, 1, Len(dst)) = dst
 \* (a run that ends uncleanly is C07's subject; here only where files appear and whether the image changed)
 Judge(ev) == /\ ev.image_same = 1
-             /\ IF ev.extracting = 1 THEN \A i \in 1..Len(ev.created) : ChildOfDest(ev.created[i])
+             /\ IF ev.extracting = 1 THEN \A i \in 1..Len(ev.created) : ChildOf(DestOf(ev), ev.created[i])
                 ELSE Len(ev.created) = 0
              /\ Len(ev.changed) = 0            \* no pre-existing file was modified or removed
 TInit == name = <<>> /\ dirc = 0 /\ trailing = FALSE /\ l = 1 /\ bad = {}
